@@ -61,6 +61,9 @@ enum Call {
     Decode(usize),
     Resolve(usize),
     Format(usize, i64),
+    /// DateTime::now in one of two fixed zones whose local dates differ at the simulated reading
+    Now(usize),
+    UtcNow,
 }
 
 const INSTANTS: &[i64] = &[-712150201, -712150200, -1830383032, 0, 3600, 7199, 7200, 1_900_000_000, 78796800, -1];
@@ -70,6 +73,14 @@ const FILES: &[&[u8]] = &[PARIS, NEW_YORK, LORD_HOWE, RIGHT_UTC, TOKYO];
 
 struct Zones {
     shared: Vec<Arc<TimeZone>>,
+    far_east: TimeZone,
+    far_west: TimeZone,
+}
+
+/// The simulated clock: a constant reading (2023-11-14T22:13:20.5Z), so that every now() has
+/// one expected answer and UTC+14 / UTC-12 are on different calendar days.
+fn fixed_clock() -> Result<std::time::Duration, std::time::Duration> {
+    Ok(std::time::Duration::new(1_700_000_000, 500_000_000))
 }
 
 fn zref(z: &Zones, i: usize) -> TimeZoneRef<'_> {
@@ -209,6 +220,25 @@ fn eval(z: &Zones, c: &Call) -> u64 {
                 Err(_) => h.i(-101),
             }
         }
+        Call::Now(zi) => {
+            let tzr = match zi % 3 {
+                0 => z.far_east.as_ref(),
+                1 => z.far_west.as_ref(),
+                _ => zref(z, *zi),
+            };
+            match DateTime::now(tzr) {
+                Ok(d) => h.dt(&d),
+                Err(e) => h.err(&e),
+            }
+        }
+        Call::UtcNow => match UtcDateTime::now() {
+            Ok(u) => {
+                for v in [u.year() as i64, u.month() as i64, u.month_day() as i64, u.hour() as i64, u.minute() as i64, u.second() as i64, u.nanoseconds() as i64] {
+                    h.i(v);
+                }
+            }
+            Err(e) => h.err(&e),
+        },
         Call::Format(zi, t) => match DateTime::from_timespec(*t, 123, zref(z, *zi)) {
             Ok(d) => {
                 let mut s = String::new();
@@ -221,12 +251,20 @@ fn eval(z: &Zones, c: &Call) -> u64 {
     h.0
 }
 
-fn gen_calls(r: &mut Rng, n: usize, heavy: bool) -> Vec<Call> {
+fn gen_calls(r: &mut Rng, n: usize, mode: &str) -> Vec<Call> {
     (0..n)
         .map(|_| {
             let zi = r.usize(5);
             let t = *r.pick(INSTANTS);
             let f = *r.pick(FIELDS);
+            if mode == "now" {
+                return match r.below(8) {
+                    0 => Call::UtcNow,
+                    1 => Call::Lookup(zi, t),
+                    _ => Call::Now(r.usize(2)),
+                };
+            }
+            let heavy = mode == "heavy";
             match r.below(if heavy { 20 } else { 16 }) {
                 0..=5 => Call::Lookup(zi, t),
                 6 | 7 => Call::FromTs(zi, t),
@@ -247,12 +285,20 @@ fn main() {
     let wseed: u64 = args.get(1).and_then(|s| s.parse().ok()).unwrap_or(1);
     let nthreads: usize = args.get(2).and_then(|s| s.parse().ok()).unwrap_or(3);
     let ncalls: usize = args.get(3).and_then(|s| s.parse().ok()).unwrap_or(24);
-    let heavy = args.get(4).map_or(false, |s| s == "heavy");
+    let mode: String = args.get(4).cloned().unwrap_or_else(|| "light".to_string());
+    tz::verif_hooks::set_clock(fixed_clock);
     let mut r = Rng::new(wseed);
     let zones = Arc::new(Zones {
-        shared: vec![Arc::new(TimeZone::from_tz_data(PARIS).unwrap()), Arc::new(TimeZone::from_tz_data(NEW_YORK).unwrap()), Arc::new(TimeZone::from_tz_data(RIGHT_UTC).unwrap()), Arc::new(TimeZone::from_tz_data(TOKYO).unwrap())],
+        shared: if mode == "now" {
+            // the clock-driven workload needs no decoded files (keeps the interpreter's set-up short)
+            (0..4).map(|k| Arc::new(TimeZone::fixed(k * 3600 - 7200).unwrap())).collect()
+        } else {
+            vec![Arc::new(TimeZone::from_tz_data(PARIS).unwrap()), Arc::new(TimeZone::from_tz_data(NEW_YORK).unwrap()), Arc::new(TimeZone::from_tz_data(RIGHT_UTC).unwrap()), Arc::new(TimeZone::from_tz_data(TOKYO).unwrap())]
+        },
+        far_east: TimeZone::fixed(14 * 3600).unwrap(),
+        far_west: TimeZone::fixed(-12 * 3600).unwrap(),
     });
-    let plans: Vec<Vec<Call>> = (0..nthreads).map(|_| gen_calls(&mut r, ncalls, heavy)).collect();
+    let plans: Vec<Vec<Call>> = (0..nthreads).map(|_| gen_calls(&mut r, ncalls, &mode)).collect();
     // prologue: single-threaded expectations
     let expected: Vec<Vec<u64>> = plans.iter().map(|p| p.iter().map(|c| eval(&zones, c)).collect()).collect();
     // concurrent phase
